@@ -181,3 +181,23 @@ DT22 = [
     ("pp", "qq"), ("pq", "pq"),
 ]
 DT4_XH = [("ss", "ss"), ("so", "ss"), ("oo", "ss"), ("pp", "ss")]
+
+
+# ----------------------------------------------------------------------------
+# core-core repulsion (MNDO: Dewar & Thiel 1977; AM1: Dewar et al. 1985; PM3: Stewart 1989)
+
+
+def core_core(method, ZA, ZB, gamma, R, alphaA, alphaB, first_is_N_or_O_second_is_H, gaussA, gaussB, exp):
+    """E_AB = Z_A Z_B (s_A s_A|s_B s_B) [1 + f_A + e^{-alpha_B R}]  (+ Z_A Z_B / R * sum of Gaussians for AM1/PM3)
+    with f_A = R e^{-alpha_A R} for N-H and O-H pairs (A = N or O), e^{-alpha_A R} otherwise.  R in Angstrom.
+    gaussA/gaussB: lists of (K, L, M): K exp(-L (R - M)^2)."""
+    fA = exp(-alphaA * R)
+    if first_is_N_or_O_second_is_H:
+        fA = fA * R
+    e = ZA * ZB * gamma * (1 + fA + exp(-alphaB * R))
+    if method == "MNDO":
+        return e
+    g = 0
+    for (K, L, M) in list(gaussA) + list(gaussB):
+        g = g + K * exp(-L * (R - M) ** 2)
+    return e + ZA * ZB / R * g
